@@ -99,4 +99,10 @@ VARIANTS = [
          expect=("C15-ATOMIC", "open_atomic")),
     dict(name="twin: write helper publishing on the normal path only", kind="twin",
          edits=[('cotengra/utils.py', 'class DiskDict:\n    """A simple persistent dict.', '@contextlib.contextmanager\ndef open_atomic(fname):\n    tmp = fname.with_name(\n        f"{fname.name}.tmp-{os.getpid()}-{threading.get_ident()}"\n    )\n    with open(tmp, "wb") as f:\n        yield f\n    os.replace(tmp, fname)\n\n\nclass DiskDict:\n    """A simple persistent dict.'), ('cotengra/utils.py', '            tmp = fname.with_name(\n                f"{fname.name}.tmp-{os.getpid()}-{threading.get_ident()}"\n            )\n            with open(tmp, "wb") as f:\n                pickle.dump(v, f)\n            os.replace(tmp, fname)\n', '            with open_atomic(fname) as f:\n                pickle.dump(v, f)\n'), ('cotengra/utils.py', 'import collections\n', 'import collections\nimport contextlib\n')]),
+    dict(name="round4: leftover temporaries are promoted to entries on start-up", kind="break", file="cotengra/utils.py",
+         old="    def clear(self):\n        self._mem_cache.clear()\n",
+         new="    def _adopt(self):\n        for tmp in self._path.rglob(\"*.tmp-*\"):\n            final = tmp.with_name(tmp.name.rpartition(\".tmp-\")[0])\n            if not final.exists():\n                os.replace(tmp, final)\n\n    def clear(self):\n        self._mem_cache.clear()\n",
+         expect=("C15-PROMOTE", "_adopt")),
+    dict(name="twin: publish through pathlib", kind="twin", file="cotengra/utils.py",
+         old="            os.replace(tmp, fname)", new="            tmp.replace(fname)"),
 ]
